@@ -109,7 +109,24 @@ def execute(mod, case):
     """run one case; exceptions other than HarnessError that escape the
     property module's own handling are harness errors too (the modules
     catch what the code under test may legitimately raise)"""
-    res = mod.run_case(case)
+    import signal
+
+    def on_alarm(signum, frame):
+        raise HarnessError(
+            f"case did not finish within {limit}s (hang in the harness or "
+            f"in the code under test): {json.dumps(enc(case))[:600]}")
+    limit = getattr(mod, "CASE_TIMEOUT", 120)
+    try:
+        old = signal.signal(signal.SIGALRM, on_alarm)
+        signal.alarm(limit)
+    except ValueError:      # not in the main thread
+        old = None
+    try:
+        res = mod.run_case(case)
+    finally:
+        if old is not None:
+            signal.alarm(0)
+            signal.signal(signal.SIGALRM, old)
     if not isinstance(res, dict) or "ok" not in res:
         raise HarnessError(f"bad result from run_case: {res!r}")
     res.setdefault("nontrivial", False)
